@@ -90,7 +90,7 @@ def group(args):
             cmd = [sim, "run", "--seed", str(sd), "--start", str(g * gsize), "--count", str(gsize),
                    "--samples", "2" if (g == 0 and rep_i == "a") else "0"]
         cmd += ["--jp", jp, "--shim", shim, "--work", work, "--out", path]
-        p = run(cmd, timeout=7200)
+        p = run(cmd, timeout=(1200 if gsize <= 2000 else 7200))
         if p.returncode != 0:
             raise HarnessError("clisim %s exited %s: %s" % (mode, p.returncode, p.stderr.decode(errors="replace")[-1500:]))
         outs.append(parse_log(path))
